@@ -123,11 +123,15 @@ func CheckC10(e *Env) int {
 			idOf[id] = key{i, v}
 		}
 	}
+	// a base set shared by wrappers that each add a different source for one interface
+	progs = append(progs, sharedBaseFamily()...)
 	results := RunPool(e, progs, PoolOpts{Execute: true, Name: "c10"})
 	byKey := map[key]*ProgResult{}
 	for _, pr := range results {
 		EvalAccepted(pr)
-		byKey[idOf[pr.P.ID]] = pr
+		if k, ok := idOf[pr.P.ID]; ok {
+			byKey[k] = pr
+		}
 	}
 	// variant vs base wiring
 	for i := 0; i < nbase; i++ {
